@@ -24,7 +24,17 @@ if HERE not in sys.path:
 warnings.simplefilter("ignore")
 
 
+def _die_with_parent():
+    # a worker stuck in generated code (C05 executes it) must not outlive its driver
+    try:
+        import ctypes
+        ctypes.CDLL(None).prctl(1, 9)  # PR_SET_PDEATHSIG, SIGKILL
+    except Exception:
+        pass
+
+
 def main():
+    _die_with_parent()
     # keep the protocol channel private: anything the code under test prints
     # (C05 executes generated code, C16 runs the CLI) must not reach it.
     proto_fd = os.dup(1)
